@@ -69,7 +69,16 @@ def r1(ctx):
                 continue
             break
         member_ok = any(y is bi[0] for y in walk_exprs(src)) or src is bi[0]
-    ok = ok and member_ok and render(site["args"][0]) == "&entry"
+    # ... against the archive's own directory entry: the first argument is (a reference to, possibly through the parameter
+    # of an extracted helper) a DirEntry of the entry loop, whatever the local is called
+    a0 = peel(site["args"][0])
+    for _ in range(6):
+        if a0["k"] == "Path" and a0.get("rk") == "Local" and a0["res"] in locs.defs:
+            a0 = peel(locs.defs[a0["res"]])
+            continue
+        break
+    entry_ok = a0["k"] == "Path" and a0.get("rk") == "Local" and "DirEntry" in str(locs.types.get(a0["res"], a0.get("ty", "")))
+    ok = ok and member_ok and entry_ok
     ctx.obligation(ok)
     if not ok:
         ctx.violation("members/identity", ctx.where(VISIT_DIR, site), "member i must be read with by_index(i), converted by to_file_info and checked against the archive's entry: %s" % info)
